@@ -25,8 +25,9 @@ Theorem push_refines : forall h b g m h1 b1, Game z h b g ->
   (outcome (b_result b1) = Draw -> outcome (b_result b) = Draw \/ g_now g' <> []) /\
   rep_get (b_reps b1) (b_hash h1 b1) =
     Z.of_nat (length (filter (fun n => n_hash n =? b_hash h1 b1) (chain h1 (b_current b1)))) /\
-  identical_position_count h1 b1 (b_current b1) (b_turn b1) (b_noprogress h1 b1) =
-    occurrences (g_pos g', g_turn g') (g_past g').
+  (b_unsat h1 b1 ->
+   identical_position_count h1 b1 (b_current b1) (b_turn b1) (b_noprogress h1 b1) =
+     occurrences (g_pos g', g_turn g') (g_past g')).
 Proof. exact (push_refines_gen z Hzt potential potential_step). Qed.
 
 (** what [result_after (g_now g')] is: the rules are applied in the order repetition, no progress, insufficient
@@ -51,6 +52,10 @@ Proof.
   destruct (3 <=? occurrences (apply_move (g_pos g) (g_turn g) sm, other (g_turn g)) ((g_pos g, g_turn g) :: g_past g))%Z;
   reflexivity.
 Qed.
+
+Lemma g_clock_g_play g sm :
+  g_clock (g_play g sm) = (if is_capture_move (g_pos g) sm || is_pawn_move (g_pos g) sm then 0 else g_clock g + 1)%Z.
+Proof. reflexivity. Qed.
 
 (** the reason reported: Repetition5 exactly when the position has occurred five times or more and neither the
     50-move rule nor insufficient material applies to the same move (those are checked later and overwrite
@@ -78,12 +83,14 @@ Section Played.
 Variables (pos : position) (turn np : N) (fm : Z).
 Hypothesis Hpos : wf_b pos turn = true.
 Hypothesis Hturn : turn = 0 \/ turn = 1.
+(** the set-up clock is a Go [int] accepted by [fen.Decode] / [NewBoard]: 0 <= np <= max_int = 2^63 - 1 *)
+Hypothesis Hnp : np <= max_int.
 Local Notation sg := (spec_game pos turn np fm).
 Local Notation played := (played_board z pos turn np fm).
 
 Theorem played_game : forall ms h b, played ms h b -> Game z h b (sg ms) /\ GRel (h, b) (sg ms).
 Proof.
-  intros ms h b Hpl. pose proof (played_Game z Hzt potential potential_step pos turn np fm Hpos Hturn ms h b Hpl) as HG.
+  intros ms h b Hpl. pose proof (played_Game z Hzt potential potential_step pos turn np fm Hpos Hturn Hnp ms h b Hpl) as HG.
   split; [exact HG|]. destruct HG as (Hwf & _ & Hrel & _). now apply GRel_ARel.
 Qed.
 
@@ -92,37 +99,81 @@ Theorem hash_consistent : forall ms h b, played ms h b ->
   forall j n, nth_error (chain h (b_current b)) j = Some n ->
   let t := turn_at (b_turn b) j in
   (t = 0 \/ t = 1) /\ wf_b (n_pos n) t = true /\ n_hash n = zhash z (n_pos n) t.
-Proof. exact (hash_consistent_gen z Hzt potential potential_step pos turn np fm Hpos Hturn). Qed.
+Proof. exact (hash_consistent_gen z Hzt potential potential_step pos turn np fm Hpos Hturn Hnp). Qed.
 
 (** ** 3. rep_map_counts *)
 Theorem rep_map_counts : forall ms h b, played ms h b ->
   forall k, rep_get (b_reps b) k = Z.of_nat (length (filter (fun n => n_hash n =? k) (chain h (b_current b)))).
-Proof. exact (rep_map_counts_gen z Hzt potential potential_step pos turn np fm Hpos Hturn). Qed.
+Proof. exact (rep_map_counts_gen z Hzt potential potential_step pos turn np fm Hpos Hturn Hnp). Qed.
 
-(** ** 4. window_complete: a node further back than the clock of the head has a different position *)
-Theorem window_complete : forall ms h b, played ms h b ->
+(** the board clock is the clock of the specification game, capped at [max_int]; it never exceeds [max_int],
+    and the fifty-move test reads the same on both sides, whatever the set-up clock and the number of moves *)
+Theorem clock_refines : forall ms h b, played ms h b ->
+  Z.of_N (b_noprogress h b) = Z.min (g_clock (sg ms)) (Z.of_N max_int) /\
+  b_noprogress h b <= max_int /\
+  (noprogressPlyLimit <=? b_noprogress h b) = (100 <=? g_clock (sg ms))%Z.
+Proof.
+  intros ms h b Hpl. destruct (played_game ms h b Hpl) as [_ (_ & _ & Hc & _)].
+  split; [exact Hc|]. split; [exact (clk_rel_le _ _ Hc)|exact (clk_rel_limit _ _ Hc)].
+Qed.
+
+(** the history has one node per move played plus the start node *)
+Theorem history_length : forall ms h b, played ms h b -> length (chain h (b_current b)) = S (length ms).
+Proof. exact (played_length z Hzt potential potential_step pos turn np fm Hpos Hturn Hnp). Qed.
+
+(** [b_unsat] holds in particular for every game of at most [max_int] = 2^63 - 1 moves *)
+Lemma unsat_of_length : forall ms h b, played ms h b -> N.of_nat (length ms) <= max_int -> b_unsat h b.
+Proof. intros ms h b Hpl Hlen. right. rewrite (history_length ms h b Hpl). lia. Qed.
+
+(** ** 4. window_complete: a node further back than the clock of the head has a different position.
+    Premise [b_unsat h b]: the clock is below saturation ([b_noprogress h b < max_int]) or the history has at
+    most [max_int + 1] nodes.  (With a saturated clock the walk of the model stops [max_int] plies back; the Go
+    loop [for i := 1; i <= limit && tmp != nil] with limit = math.MaxInt stops at the start node only.) *)
+Theorem window_complete : forall ms h b, played ms h b -> b_unsat h b ->
   forall j n, nth_error (chain h (b_current b)) j = Some n -> b_noprogress h b < N.of_nat j ->
   abs_pos (n_pos n) <> abs_pos (b_position h b).
-Proof. exact (window_complete_gen z Hzt potential potential_step pos turn np fm Hpos Hturn). Qed.
+Proof. exact (window_complete_gen z Hzt potential potential_step pos turn np fm Hpos Hturn Hnp). Qed.
 
 (** ** 5. ipc_counts *)
-Theorem ipc_counts : forall ms h b, played ms h b ->
+Theorem ipc_counts : forall ms h b, played ms h b -> b_unsat h b ->
   identical_position_count h b (b_current b) (b_turn b) (b_noprogress h b) =
   occurrences (g_pos (sg ms), g_turn (sg ms)) (g_past (sg ms)).
-Proof. exact (ipc_counts_gen z Hzt potential potential_step pos turn np fm Hpos Hturn). Qed.
+Proof. exact (ipc_counts_gen z Hzt potential potential_step pos turn np fm Hpos Hturn Hnp). Qed.
+
+Corollary ipc_counts_len : forall ms h b, played ms h b -> N.of_nat (length ms) <= max_int ->
+  identical_position_count h b (b_current b) (b_turn b) (b_noprogress h b) =
+  occurrences (g_pos (sg ms), g_turn (sg ms)) (g_past (sg ms)).
+Proof. intros ms h b Hpl Hlen. apply ipc_counts; [exact Hpl|exact (unsat_of_length ms h b Hpl Hlen)]. Qed.
 
 (** ** 8. drawn_iff (C05) *)
 Theorem drawn_iff : forall ms h b, played ms h b ->
   (ms <> [] -> g_now (sg ms) <> [] -> outcome (b_result b) = Draw) /\
   (outcome (b_result b) = Draw -> g_drawn (sg ms) = true) /\
   (ms = [] -> b_result b = no_result).
-Proof. exact (drawn_iff_gen z Hzt potential potential_step pos turn np fm Hpos Hturn). Qed.
+Proof. exact (drawn_iff_gen z Hzt potential potential_step pos turn np fm Hpos Hturn Hnp). Qed.
 
 (** the exact result after every move of the game *)
 Theorem played_result_exact : forall ms h b m h1 b1, played ms h b ->
   In m (pseudo_legal_moves (b_position h b) (b_turn b)) -> push_move z h b m = (h1, b1, true) ->
   b_result b1 = result_after (g_now (sg (ms ++ [m]))) (b_result b).
-Proof. exact (played_result z Hzt potential potential_step pos turn np fm Hpos Hturn). Qed.
+Proof. exact (played_result z Hzt potential potential_step pos turn np fm Hpos Hturn Hnp). Qed.
+
+(** a saturated clock still draws: whenever the clock of the board just pushed on has reached the fifty-move
+    limit - in particular when it sits at [max_int] - the board reports a draw *)
+Theorem saturated_clock_still_draws : forall ms h b m h1 b1, played ms h b ->
+  In m (pseudo_legal_moves (b_position h b) (b_turn b)) -> push_move z h b m = (h1, b1, true) ->
+  noprogressPlyLimit <= b_noprogress h1 b1 ->
+  b_result b1 = mkResult Draw NoProgress \/ b_result b1 = mkResult Draw InsufficientMaterial.
+Proof.
+  intros ms h b m h1 b1 Hpl Hin Hpush Hsat.
+  assert (Hpl1 : played (ms ++ [m]) h1 b1) by (econstructor; eauto).
+  destruct (clock_refines _ _ _ Hpl1) as (_ & _ & Hlim).
+  rewrite (proj2 (N.leb_le _ _) Hsat) in Hlim.
+  rewrite (played_result_exact ms h b m h1 b1 Hpl Hin Hpush).
+  rewrite spec_game_snoc in Hlim |- *. rewrite result_after_g_play.
+  rewrite g_clock_g_play in Hlim. rewrite <- Hlim.
+  destruct (_ && _); [right|left]; reflexivity.
+Qed.
 
 (** [g_drawn] is what it says: some condition held after some move of the game so far *)
 Lemma g_drawn_spec : forall ms, g_drawn (sg ms) = true <->
@@ -171,6 +222,10 @@ Print Assumptions hash_consistent.
 Print Assumptions rep_map_counts.
 Print Assumptions window_complete.
 Print Assumptions ipc_counts.
+Print Assumptions ipc_counts_len.
+Print Assumptions clock_refines.
+Print Assumptions history_length.
+Print Assumptions saturated_clock_still_draws.
 Print Assumptions drawn_iff.
 Print Assumptions played_result_exact.
 Print Assumptions g_drawn_spec.
